@@ -25,6 +25,8 @@ pub static mut SENT_ERRORS: u32 = 0;
 pub static mut SENT_FATAL: u32 = 0;
 pub static mut SENT_OTHER: u32 = 0;
 pub static mut SENT_ERR_NONEMPTY: bool = true;
+pub static mut SENT_LAYER_STAVE: u32 = 0;
+pub static mut LAST_LAYER_STAVE: (u8, u8) = (0, 0);
 
 pub fn stub_send<T>(_s: &flume::Sender<T>, msg: T) -> Result<(), flume::SendError<T>> {
     // Every Sender reached from fastpasta harnesses carries StatType.
@@ -40,6 +42,11 @@ pub fn stub_send<T>(_s: &flume::Sender<T>, msg: T) -> Result<(), flume::SendErro
                 }
             }
             StatType::Fatal(_) => SENT_FATAL += 1,
+            StatType::LayerStaveSeen { layer, stave } => {
+                SENT_LAYER_STAVE += 1;
+                LAST_LAYER_STAVE = (*layer, *stave);
+                SENT_OTHER += 1;
+            }
             _ => SENT_OTHER += 1,
         }
     }
